@@ -233,8 +233,9 @@ func (m *Machine) symDigits(t *Term, minDigits int) []Val {
 	p := int64(1)
 	m.digitSeq++
 	for k := 0; k < n; k++ {
-		d := mkVarRange(fmt.Sprintf("dig!%d!%d", m.digitSeq, k), 8, false, 0, 9)
+		d := mkVar(fmt.Sprintf("dig!%d!%d", m.digitSeq, k), 8, false)
 		m.assertPC(mkCmp("le", d, mkConst(9, 8, false)))
+		d.rlo, d.rhi, d.rstate = 0, 9, 1 // attached after the constraint was built (comparisons fold on static ranges)
 		sum = mkArith("add", sum, mkArith("mul", mkConv(d, t.W, t.S), mkConst(p, t.W, t.S)))
 		digits[n-1-k] = fromTerm(mkArith("add", d, mkConst('0', 8, false)))
 		p *= 10
